@@ -252,6 +252,7 @@ func (e *storeEnv) fuzzOne(r fuzzReq) (o fuzzOut) {
 		code, _ := e.do("A", h, method, target, body)
 		o.Status, o.Failed = code, code >= 400
 	}
+	// (grpcWire: a reply that cannot be put on the wire is what the client sees as codes.Internal)
 	grpcDone := func(desc string, err error) {
 		o.Kind = "grpc"
 		o.Desc = desc
@@ -449,7 +450,7 @@ func (e *storeEnv) fuzzOne(r fuzzReq) (o fuzzOut) {
 		case "deprecated":
 			req.Query = &rts.ListRelationTuplesRequest_Query{Namespace: derefOr(protoStr(f["namespace"], "n1")), Object: derefOr(protoStr(f["object"], "o1")), Subject: protoSubject(f["subject"])} //nolint
 		}
-		_, err := e.rt.ListRelationTuples(ctx, req)
+		_, err := grpcWire(e.rt.ListRelationTuples(ctx, req))
 		grpcDone(fmt.Sprintf("ListRelationTuples %v", f), err)
 	case "grpc_check":
 		req := &rts.CheckRequest{MaxDepth: depth32()}
@@ -460,16 +461,16 @@ func (e *storeEnv) fuzzOne(r fuzzReq) (o fuzzOut) {
 			t := protoTupleOf()
 			req.Namespace, req.Object, req.Relation, req.Subject = t.Namespace, t.Object, t.Relation, t.Subject //nolint
 		}
-		_, err := e.ch.Check(ctx, req)
+		_, err := grpcWire(e.ch.Check(ctx, req))
 		grpcDone(fmt.Sprintf("Check %v", f), err)
 	case "grpc_batch":
-		_, err := e.ch.BatchCheck(ctx, &rts.BatchCheckRequest{Tuples: protoTuples(f["shape"]), MaxDepth: depth32()})
+		_, err := grpcWire(e.ch.BatchCheck(ctx, &rts.BatchCheckRequest{Tuples: protoTuples(f["shape"]), MaxDepth: depth32()}))
 		grpcDone(fmt.Sprintf("BatchCheck %v", f), err)
 	case "grpc_expand":
-		_, err := e.eh.Expand(ctx, &rts.ExpandRequest{Subject: protoSubject(f["subject"]), MaxDepth: depth32()})
+		_, err := grpcWire(e.eh.Expand(ctx, &rts.ExpandRequest{Subject: protoSubject(f["subject"]), MaxDepth: depth32()}))
 		grpcDone(fmt.Sprintf("Expand %v", f), err)
 	case "grpc_namespaces":
-		_, err := e.ns.ListNamespaces(ctx, &rts.ListNamespacesRequest{})
+		_, err := grpcWire(e.ns.ListNamespaces(ctx, &rts.ListNamespacesRequest{}))
 		grpcDone("ListNamespaces", err)
 	case "grpc_transact":
 		act := map[string]rts.RelationTupleDelta_Action{"insert": rts.RelationTupleDelta_ACTION_INSERT, "delete": rts.RelationTupleDelta_ACTION_DELETE,
@@ -482,7 +483,7 @@ func (e *storeEnv) fuzzOne(r fuzzReq) (o fuzzOut) {
 			// a delta whose relation_tuple sub-message is absent
 			req.RelationTupleDeltas = append(req.RelationTupleDeltas, &rts.RelationTupleDelta{Action: act})
 		}
-		_, err := e.rt.TransactRelationTuples(ctx, req)
+		_, err := grpcWire(e.rt.TransactRelationTuples(ctx, req))
 		grpcDone(fmt.Sprintf("TransactRelationTuples %v", f), err)
 	case "grpc_delete":
 		req := &rts.DeleteRelationTuplesRequest{}
@@ -492,10 +493,10 @@ func (e *storeEnv) fuzzOne(r fuzzReq) (o fuzzOut) {
 		case "deprecated":
 			req.Query = &rts.DeleteRelationTuplesRequest_Query{Namespace: derefOr(protoStr(f["namespace"], "n1")), Object: derefOr(protoStr(f["object"], "o1")), Subject: protoSubject(f["subject"])} //nolint
 		}
-		_, err := e.rt.DeleteRelationTuples(ctx, req)
+		_, err := grpcWire(e.rt.DeleteRelationTuples(ctx, req))
 		grpcDone(fmt.Sprintf("DeleteRelationTuples %v", f), err)
 	case "grpc_syntax":
-		_, err := e.sx.Check(ctx, &opl.CheckRequest{Content: oplBytes(f["bytes"])})
+		_, err := grpcWire(e.sx.Check(ctx, &opl.CheckRequest{Content: oplBytes(f["bytes"])}))
 		grpcDone(fmt.Sprintf("SyntaxService.Check %s", f["bytes"]), err)
 	default:
 		o.Kind, o.Desc = "skip", "unknown endpoint "+r.Ep
